@@ -107,7 +107,7 @@ def compare(out, obs):
     if sc == 'nopred':
         # the spec makes no prediction about the value; the string is accepted by the grammar and fully in
         # scope, so the implementation must not reject it as unparsable / undefined
-        if coarse(oc) in ('rejected', 'undefined'):
+        if coarse(oc) == 'undefined' or oc == 'unbalanced' or (oc == 'parse' and not out.get('arr')):
             problems.append(('class', 'spec: accepted by the grammar and in scope; code: %s' % oc))
         elif oc == 'value':
             _usage(out, obs, problems)
